@@ -147,7 +147,21 @@ class ElemEval:
                     parts = inner[2][1] if inner[2][0] == 'tuple' else (inner[2],)
                     vals = [bool(self.ev(p)) for p in parts]
                     return any(vals) if name == 'numpy.any' else all(vals)
+                if inner[0] == 'call' and inner[1] in ('numpy.stack', 'numpy.array', 'numpy.asarray', 'numpy.vstack') \
+                        and len(inner[2]) == 1 and inner[2][0][0] in ('tuple', 'list') \
+                        and dict(inner[3]).get('axis', ('c', 0)) == ('c', 0):
+                    # np.all(np.stack((c1, c2, ...)), axis=0): the conditions stacked on a new leading axis and reduced
+                    # along it - elementwise conjunction / disjunction
+                    ax = dict(t[3]).get('axis', t[2][1] if len(t[2]) > 1 else ('c', None))
+                    if ax != ('c', 0):
+                        raise Fault('np.%s over the stacked conditions is not reduced along the stacking axis 0 (%s)'
+                                    % (name.split('.')[1], 'all elements' if ax == ('c', None) else 'axis %s' % show(ax)))
+                    vals = [bool(self.ev(p)) for p in inner[2][0][1]]
+                    return any(vals) if name == 'numpy.any' else all(vals)
                 raise Undecided('reduction %s' % name)
+            if name in ('numpy.logical_and.reduce', 'numpy.logical_or.reduce') and t[2] and t[2][0][0] in ('tuple', 'list'):
+                vals = [bool(self.ev(p)) for p in t[2][0][1]]
+                return all(vals) if 'and' in name else any(vals)
             if name in ('numpy.logical_and', 'numpy.logical_or') and len(t[2]) == 2:
                 a, b = bool(self.ev(t[2][0])), bool(self.ev(t[2][1]))
                 return (a and b) if name.endswith('and') else (a or b)
